@@ -279,18 +279,23 @@ def d6(chk, prog):
         model = Model()
         model.ext["np.random.seed"] = lambda it, s, ev=ev: ev.append(("seed", s))
 
+        def positions(vals):
+            r = Vec(list(vals))                  # an integer ndarray
+            r.exact = True
+            return r
+
         def permutation(it, x, ev=ev):
             ev.append(("draw", "permutation"))
-            return list(perm)
+            return positions(perm)
         model.ext["np.random.permutation"] = permutation
 
         def argsort(it, k, kind=None, **kw):
             ev.append(("argsort", kind))
             vals = list(k.v) if isinstance(k, Vec) else list(k)
             if kind in ("mergesort", "stable"):
-                return sorted(range(len(vals)), key=lambda i: vals[i])
+                return positions(sorted(range(len(vals)), key=lambda i: vals[i]))
             # an unstable sort may order ties arbitrarily: model the adversarial choice (ties reversed)
-            return sorted(range(len(vals)), key=lambda i: (vals[i], -i))
+            return positions(sorted(range(len(vals)), key=lambda i: (vals[i], -i)))
         model.ext["np.argsort"] = argsort
         model.method_hooks.append(lambda it, obj, name, args, kw: argsort(it, obj, *args, **kw) if isinstance(obj, Vec) and name == "argsort" else NotImplemented)
 
